@@ -172,23 +172,125 @@ def filter_rule(ck, facts):
         if call_name_matches(t, r"HashMapUtil<T>>?::push_if_new$|util_traits::HashMapUtil"):
             return "record"
         return None
+    def stm(st):
+        if st[0] == "=" and st[2][0] == "use" and st[2][1][0] == "k" and st[2][1][1].get("kind") == "str" and st[2][1][1].get("v") in ("@type", "@graph"):
+            return "const:" + st[2][1][1]["v"]
+        return None
+
+    def tok2(t):
+        for a in t["args"]:
+            o = c.origin(a) if a[0] != "k" else ("const", a[1])
+            if o[0] == "const" and o[1].get("kind") == "str" and o[1].get("v") in ("@type", "@graph"):
+                base = tok(t)
+                return "const:" + o[1]["v"] + ("+record" if base == "record" else "")
+        r = tok(t)
+        if r:
+            return r
+        if call_name_matches(t, r"Option::<T>::take$"):
+            return "take"
+        return None
     try:
-        paths = enumerate_paths(c, 0, tok, max_paths=5000)
+        paths = enumerate_paths(c, 0, tok2, max_paths=5000, on_stmt=stm)
     except CheckError as e:
         ck.bad("R12.1", "R12.1@process_quads#shape", str(e), c.loc)
         return
-    silent = [[(d.split("::")[-1], o) for d, o, s in conds] for conds, toks in paths if "record" not in toks]
+    # R12.4: the pseudo-key "@type" is used only for IRI objects of rdf:type (and not with use_rdf_type)
+    n_type = 0
+    for conds, toks in paths:
+        cs = [(d.split("::")[-1], o) for d, o, s_ in conds]
+        if any(x.startswith("const:@type") for x in toks):
+            n_type += 1
+            if ("is_iri", True) not in cs or ("use_rdf_type", False) not in cs or not any(d == "eq" and o is True for d, o in cs):
+                ck.bad("R12.4", "R12.4@process_quads#type-key", "`@type` is chosen as key on a path without `rdf:type == p && obj.is_iri() && "
+                       "!use_rdf_type` (conditions: %s): a non-IRI value under @type is rendered as a bare id (make_node_object) and any "
+                       "list/literal structure behind it is lost" % cs, c.loc)
+                break
+    else:
+        if n_type:
+            ck.ok("R12.4", "`@type` key only under rdf:type == p && obj.is_iri() && !use_rdf_type (%d paths)" % n_type)
+        else:
+            ck.bad("R12.4", "R12.4@process_quads#type-key-missing", "no path uses the `@type` key", c.loc)
+    # R12.5: a quad of a named graph always registers its subject under the graph node's @graph entry
+    missing = []
+    n_g = 0
+    for conds, toks in paths:
+        cs = [(d.split("::")[-1], o) for d, o, s_ in conds]
+        if ("is_jsonld", True) in cs:
+            tested = [o for d, o in cs if d in ("is_some", "is_none")]
+            if not tested:
+                missing.append(cs)       # recorded without even asking whether the quad is in a named graph
+                continue
+            if ("is_some", True) in cs or ("is_none", False) in cs:
+                n_g += 1
+                if not any(x.startswith("const:@graph") for x in toks):
+                    missing.append(cs)
+    if missing:
+        ck.bad("R12.5", "R12.5@process_quads#graph-registration", "a quad of a named graph can be recorded without registering its subject under "
+               "the graph's @graph entry (conditions %s): the node is then never emitted" % missing[0], c.loc)
+    elif n_g:
+        ck.ok("R12.5", "named-graph quads always register their subject under @graph (%d paths)" % n_g)
+    else:
+        ck.bad("R12.5", "R12.5@process_quads#graph-test-missing", "no path tests q.g().is_some()", c.loc)
+    silent = [[(d.split("::")[-1], o) for d, o, s in conds] for conds, toks in paths if not any("record" in x for x in toks)]
     bad = [s for s in silent if ("is_jsonld", False) not in s]
-    kept = [1 for conds, toks in paths if "record" in toks and ("is_jsonld", False) in [(d.split("::")[-1], o) for d, o, s in conds]]
+    kept = [1 for conds, toks in paths if any("record" in x for x in toks) and ("is_jsonld", False) in [(d.split("::")[-1], o) for d, o, s in conds]]
     if silent and not bad and not kept:
         ck.ok("R12.1", "process_quads: a quad is skipped iff !is_jsonld() (%d paths)" % len(paths))
     else:
         ck.bad("R12.1", "R12.1@process_quads#silent-drop", "a quad can be left unrecorded on a path where is_jsonld() held: %s" % bad[:2], c.loc)
 
 
+def unique_parent_rule(ck, facts):
+    """R12.3: in the and_modify closure of unique_parent, an existing parent is dropped iff it differs from the new one
+    in ANY component (subject slot or predicate)."""
+    fns = facts.find_fns(crate="sophia_jsonld", name_re=r"engine::Engine::<'a, L>::process_quads::\{closure#0\}::\{closure#\d+\}$")
+    cands = [f for f in fns if any(call_name_matches(t, r"Option::<T>::take$") for _, t in f.calls())]
+    if len(cands) != 1:
+        ck.bad("R12.3", "R12.3@unique_parent#anchor", "anchor-missing: the and_modify closure resetting unique_parent (%d)" % len(cands))
+        return
+    c = cands[0]
+
+    def tok(t):
+        if call_name_matches(t, r"Option::<T>::take$"):
+            return "take"
+        return None
+    try:
+        paths = enumerate_paths(c, 0, tok)
+    except CheckError as e:
+        ck.bad("R12.3", "R12.3@unique_parent#shape", str(e), c.loc)
+        return
+    cmp_names = set()
+    table = {}
+    for conds, toks in paths:
+        cs = []
+        for d, o, s_ in conds:
+            if re.search(r"PartialEq(<.*>)?>?::(ne|eq)$", d):
+                neq = o if d.endswith("::ne") else (not o)
+                cs.append(neq)
+                cmp_names.add(d)
+        if any(d.endswith("Option") or o in ("Some", "None") for d, o, s_ in conds) and [o for d, o, s_ in conds if o == "None"]:
+            continue
+        table[tuple(cs)] = "take" in toks
+    # drop iff at least one comparison says "different"; keep iff all say "same"
+    ok = bool(table)
+    for cs, took in table.items():
+        if not cs:
+            continue
+        if took != any(cs):
+            # with short-circuit `||`, a path (True,) [first differs] takes; (False, True) takes; (False, False) keeps
+            ok = False
+    if ok and any(table.values()) and not all(table.values()):
+        ck.ok("R12.3", "unique_parent: an existing parent is forgotten iff it differs from the new (subject, predicate) in any component")
+    else:
+        ck.bad("R12.3", "R12.3@unique_parent#reset-condition", "the reset of unique_parent is not `existing != new` component-wise-OR "
+               "(truth table of the comparisons -> take(): %s): a node with two different parents can stay 'unique' and be inlined twice"
+               % sorted(table.items()), c.loc)
+
+
 def run(ck, facts, tier):
     facts.require_crates(["sophia_jsonld"])
     filter_rule(ck, facts)
+    unique_parent_rule(ck, facts)
     fns = [f for f in facts.fns.values() if f.crate == "sophia_jsonld" and re.search(r"jsonld/src/(serializer|util_traits)", f.file)]
     ck.floor("R12.2", "serializer functions", len(fns), 60)
     sites = []
